@@ -523,6 +523,35 @@ class CFG:
                     todo.append(m)
         return seen
 
+    def reach_back(self, starts, avoid_nodes=()):
+        avoid_nodes = set(avoid_nodes)
+        seen = set()
+        todo = [s for s in starts if s not in avoid_nodes]
+        while todo:
+            n = todo.pop()
+            if n in seen:
+                continue
+            seen.add(n)
+            for m, _ in self.pred[n]:
+                if m not in avoid_nodes and m not in seen:
+                    todo.append(m)
+        return seen
+
+    def between(self, a, b):
+        """Nodes that lie on some path a -> b that does not revisit a (a and b excluded)."""
+        fwd = set()
+        todo = [m for m, _ in self.succ[a]]
+        while todo:
+            n = todo.pop()
+            if n in fwd or n == a:
+                continue
+            fwd.add(n)
+            if n == b:
+                continue
+            todo.extend(m for m, _ in self.succ[n])
+        back = self.reach_back([b], avoid_nodes=[a])
+        return (fwd & back) - {a, b}
+
     def reachable_nodes(self):
         return self.reach([self.entry])
 
@@ -639,6 +668,7 @@ class Flow:
         self.fi = fi
         self.cfg = fi.cfg
         self.defs_at = {}       # node id -> [Def]
+        self._between = {}
         self._collect()
         self._solve()
 
@@ -760,9 +790,19 @@ class Flow:
                 if d.kind != 'assign' or d.path != () or d.value is None:
                     return node
                 # free variables of the RHS must mean the same at the use site
-                for fv in names_loaded(d.value):
+                fvs = names_loaded(d.value)
+                for fv in fvs:
                     if flow.rd_in[d.node].get(fv, set()) != flow.rd_in[at_nid].get(fv, set()):
                         return node
+                # ... and must not be re-bound on any path from the definition to the use
+                if d.node != at_nid:
+                    key = (d.node, at_nid)
+                    if key not in flow._between:
+                        flow._between[key] = flow.cfg.between(d.node, at_nid)
+                    for mid in flow._between[key]:
+                        for d2 in flow.defs_at.get(mid, ()):
+                            if d2.name in fvs or d2.name == node.id:
+                                return node
                 # RHS must be side-effect free enough: no calls that mutate? keep calls (pure assumption)
                 return flow._inline_at(d.value, d.node, depth - 1, stop)
 
